@@ -27,6 +27,36 @@ def data_index():
         return _idx
 
 
+_inc = None
+
+
+def inc_candidates(sym):
+    """units that %include an .inc file exporting `sym` as global data (the definition may sit behind a preprocessor guard,
+    so the caller has to assemble a candidate and look at its symbol table)"""
+    global _inc
+    with _lock:
+        if _inc is None:
+            _inc = {}
+            incs = {}
+            p = os.path.join(LIB, 'include')
+            for f in sorted(os.listdir(p)):
+                if f.endswith(('.inc', '.asm')):
+                    txt = open(os.path.join(p, f), errors='replace').read()
+                    for m in re.finditer(r'MKGLOBAL\(\s*(\w+)\s*,\s*data\s*,', txt):
+                        incs.setdefault('include/' + f, set()).add(m.group(1))
+            for d in sorted(os.listdir(LIB)):
+                q = os.path.join(LIB, d)
+                if not os.path.isdir(q) or d in ('avx2_t4', 'include'):
+                    continue
+                for f in sorted(os.listdir(q)):
+                    if f.endswith('.asm'):
+                        txt = open(os.path.join(q, f), errors='replace').read()
+                        for m in re.finditer(r'%include\s+"([^"]+)"', txt):
+                            for s in incs.get(m.group(1), ()):
+                                _inc.setdefault(s, []).append(d + '/' + f)
+        return list(_inc.get(sym, ()))
+
+
 def link_units(ctx, rels, out, drop=()):
     objs = {r: nasm(ctx, r, drop=drop) for r in rels}
     idx = data_index()
@@ -37,8 +67,24 @@ def link_units(ctx, rels, out, drop=()):
         defd = set(l.split()[-1] for l in o.splitlines() if len(l.split()) == 3)
         new = [idx[s] for s in und - defd if s in idx and idx[s] not in objs]
         if not new:
+            # data exported from an included .inc: try the units that include it until one really defines the symbol
+            for s in sorted(und - defd):
+                for cand in inc_candidates(s):
+                    if cand in objs:
+                        continue
+                    ob = nasm(ctx, cand)
+                    rc, o2, _, _ = sh(['nm', '--defined-only', ob])
+                    if any(l.split()[-1] == s for l in o2.splitlines() if len(l.split()) == 3):
+                        new.append(cand)
+                        break
+                if new:
+                    break
+        if not new:
             break
         for r in sorted(set(new)):
             objs[r] = nasm(ctx, r)
     link_reloc(ctx, list(objs.values()), out)
+    rc, o, _, _ = sh(['nm', '-u', out])
+    left = sorted(set(l.split()[-1] for l in o.splitlines() if l.strip().startswith('U ')) - {'imb_errno', 'imb_errno_types', '_GLOBAL_OFFSET_TABLE_'})
+    ctx.unresolved = left        # a harness that reaches one of these reads/calls memory nobody defined: it must not report a verdict
     return out, sorted(objs)
